@@ -52,6 +52,14 @@ def r1(ctx):
       '(trimmed); the characters are visited in order')
 def r2(ctx):
     b = ctx.body('text::clean')
+    # every returned string is built from the Character sequence: the raw input is never returned (a shortcut that judges
+    # "already clean" on its own keeps separators that are whitespace but not U+0020)
+    for v, bb in ret_values(b):
+        raw = [x for x in walk(init_value(b, v)) if isinstance(x, tuple) and x and x[0] == 'call' and x[2] and
+               re.search(r'to_string$|to_owned$|String::from$|::into$|Cow', x[1]) and match(core(x[2][0]), ('arg', 1, ANY))]
+        ctx.require(not raw, b, 'returns-built-output', 'clean() returns the string it built (line %d)' % b.blocks[bb].term.span['line'],
+                    'clean() returns (a copy of) its raw input on some path (line %d): a separator that is whitespace but not a single space survives' % b.blocks[bb].term.span['line'],
+                    b.blocks[bb].term.span)
     nx = [t for t in b.calls(r'::next$')]
     if len(nx) != 1:
         raise AnchorMissing('iteration of clean()')
@@ -136,6 +144,14 @@ def r3(ctx):
       'whitespace character, and a trailing word ends at the number of characters')
 def r4(ctx):
     b = ctx.body('text::word_boundaries')
+    # positions are counted in Characters of CS::new(s, use_graphemes): nothing pushed is measured on the raw string
+    for t in b.calls(r'Vec::push$'):
+        v = init_value(b, sym(b, t.args[1]))
+        raw = [x for x in walk(v) if isinstance(x, tuple) and x and x[0] == 'call' and x[2] and not x[1].endswith('CharString::new') and
+               match(core(x[2][0]), ('arg', 1, ANY))]
+        ctx.require(not raw, b, 'positions-in-characters', 'the range pushed at line %d is measured in Characters' % t.span['line'],
+                    'the range pushed at line %d uses `%s` of the raw string: with graphemes a cluster of several code points (CRLF, combining marks) '
+                    'counts more than once, the range ends past the character sequence' % (t.span['line'], raw[0][1].rsplit('::', 2)[-2] + '::' + raw[0][1].rsplit('::', 1)[-1] if raw else ''), t.span)
     nx = [t for t in b.calls(r'::next$')]
     if len(nx) != 1:
         raise AnchorMissing('iteration of word_boundaries()')
